@@ -381,7 +381,7 @@ fn runs_check<T: Elem>(len: usize, all3: bool, out: &mut JobOut, states: &mut BT
 
 fn body(ctx: &Ctx) -> (Summary, Meta) {
     let quick = ctx.quick();
-    let maxlen = if quick { 12 } else { 13 };
+    let maxlen = if quick { 12 } else { 14 };
     let mut jobs = vec![Job::Words { len: 0, prefix: vec![] }, Job::Words { len: 1, prefix: vec![] }];
     for len in 2..=maxlen {
         for a in [-1i8, 0, 1] {
